@@ -225,6 +225,21 @@ func directed(r *rep.Report) {
 		{[]map[string]interface{}{P("name", "color", "is", "red"), P("color", "red"), P("size", "red")}, and(P("name", "?p", "is", "?v"), P("?p", "?v"))},
 		{[]map[string]interface{}{P("name", "color"), P("color", "red", "size", "big")}, and(P("name", "?p"), P("?p", "?v"))},
 	}
+	// values a code term returns (numbers, arrays, maps) used by a later pattern
+	andc := func(code string, ps ...map[string]interface{}) ref.Q {
+		subs := []interface{}{ref.Q{"code": code}}
+		for _, p := range ps {
+			subs = append(subs, ref.Q{"pattern": p})
+		}
+		return ref.Q{"and": subs}
+	}
+	structured := []map[string]interface{}{P("a", 1, "t", "one"), P("b", []interface{}{-1}, "t", "arr"), P("c", []interface{}{"s1", "x"}, "t", "strs"), P("d", P("k", 1, "m", []interface{}{2}), "t", "map"), P("a", 2, "t", "two")}
+	cases = append(cases,
+		dc{structured, andc("({x:1})", P("a", "?x", "t", "?t"))},
+		dc{structured, andc("({y:[-1]})", P("b", "?y", "t", "?t"))},
+		dc{structured, andc("({x:['s1','x']})", P("c", "?x", "t", "?t"))},
+		dc{structured, andc("({y:{k:1,m:[2]}})", P("d", "?y", "t", "?t"))},
+	)
 	for ci, c := range cases {
 		for _, kind := range drv.Kinds {
 			loc, err := drv.NewLoc("D", kind, drv.MustMem())
@@ -251,7 +266,7 @@ func directed(r *rep.Report) {
 			got := ref.Multiset(toB(qr.Bss))
 			wit["got"] = got
 			if !ref.SameSet(got, want) {
-				r.Violate("", "a variable bound by an earlier conjunct is not respected where a later pattern uses it as a key", wit)
+				r.Violate("", "directed query: the result differs from the reference evaluation (a bound variable in key position, or a value returned by a code term and used by a later pattern)", wit)
 			}
 		}
 	}
